@@ -1,5 +1,95 @@
-import YModel.Sched
+import YProofs.Lemmas.SchedSweeps
+/-!
+# C09 — DMRG is variational and self-consistent (schedule / environment-freshness part)
+
+Model: `YModel/Sched.lean` (event traces of `_dmrg.py`, state machine of `_env.py`).  Tie to the source: the traces of
+REAL `dmrg_` runs (run-time monitor, `harness/props/c09.py`) are diffed exactly against `dmrgRun` and stamp-checked.
+
+`exec N pre st evs = (st', ok)`: `ok` is true iff **every** event of the trace passes `okEv`, i.e.
+* every key read by `update_env_`, `Heff1`, `Heff2`, `measure` (and by `get_FL/get_FR` when a derived key is created) is
+  present (no `KeyError`) and its stamp equals the *current* versions of all sites it was contracted from (not stale),
+* no site is written / orthogonalised while a central block exists (`YastnError` in `orthogonalize_site_`).
+
+What is NOT proved here (validated numerically by the harness on the real code): the variational inequality,
+monotonicity, convergence to an eigenstate, the effect of the penalty terms (they are consequences of the contracts of
+`eigs`/QR/SVD on top of the freshness proved here).
+-/
 namespace YModel.Sched
-/-- placeholder (replaced below) -/
-theorem c09_placeholder : (dmrgTrace 1 []).length = 2 := by decide
+
+/-- the whole event trace of `_dmrg_`: canonisation (if `psi.is_canonical(to='first')` is false), `setup_`, the initial
+`measure`, then for every sweep its method's sweep and the `measure` that produces the reported energy -/
+def dmrgRun (N : Nat) (canon : Bool) (methods : List Method) : List Ev :=
+  (if canon then [] else canonizeFirst N) ++ dmrgTrace N methods
+
+theorem dmrgRun_ok (N : Nat) (hN : 1 ≤ N) (pre canon : Bool) (methods : List Method) :
+    Tr N pre (J N) (dmrgRun N canon methods) (B N pre) := by
+  unfold dmrgRun
+  cases canon with
+  | true => exact (dmrgTrace_ok N pre hN methods).weaken (fun st h => J_S h) (fun st h => h)
+  | false =>
+    exact Tr.append (canonize_ok N pre) ((dmrgTrace_ok N pre hN methods).weaken (fun st h => J_S h) (fun st h => h))
+
+/-- **`dmrg_reads_fresh`** (clause "self-consistent": the environments stay in sync with the updated sites).
+For every chain length `N ≥ 1`, every sequence of methods over the sweeps (switches via `yastn.Method` included), with and
+without `precompute`, canonical or non-canonical initial state: no event of the run reads a missing or stale environment
+(plain or precompute-derived key).  Several environments (`Env_sum` over MPOs, `Env_project`) each follow this trace. -/
+theorem dmrg_reads_fresh (N : Nat) (hN : 1 ≤ N) (pre canon : Bool) (methods : List Method) :
+    (exec N pre (init N canon) (dmrgRun N canon methods)).2 = true :=
+  (dmrgRun_ok N hN pre canon methods _ (J_init N canon)).1
+
+theorem fresh_of_FreshK {N : Nat} {st : St} {k : Key} (h : FreshK N st.ver st.F k) : st.fresh N k = true := by
+  unfold FreshK at h
+  simp [St.fresh, h]
+
+/-- **`dmrg_exit_state`** (clause "the reported energy equals the expectation value in the returned state", schedule part):
+after the run there is no central block and both environments read by `measure()` at bond `(-1, 0)` are fresh for the
+returned tensors, -/
+theorem dmrg_exit_state (N : Nat) (hN : 1 ≤ N) (pre canon : Bool) (methods : List Method) :
+    let st := (exec N pre (init N canon) (dmrgRun N canon methods)).1
+    st.pC = none ∧ st.fresh N (.L 0) = true ∧ st.fresh N (.R 0) = true := by
+  have h := (dmrgRun_ok N hN pre canon methods _ (J_init N canon)).2
+  exact ⟨h.2, fresh_of_FreshK (h.1.l 0 (by omega)), fresh_of_FreshK (h.1.r 0 (by omega) (by omega))⟩
+
+/-- … and the last event of every run with at least one sweep is that `measure` (no site is written after it). -/
+theorem dmrg_ends_with_measure (N : Nat) (canon : Bool) (ms : List Method) (m : Method) :
+    (dmrgRun N canon (ms ++ [m])).getLast? = some (.meas 0) := by
+  have e : dmrgRun N canon (ms ++ [m]) =
+      ((if canon then [] else canonizeFirst N) ++ (setupFirst N ++ [.meas 0]) ++
+        ms.flatMap (fun m => dmrgSweep m N ++ [.meas 0]) ++ dmrgSweep m N) ++ [.meas 0] := by
+    simp [dmrgRun, dmrgTrace, List.flatMap_append, List.append_assoc]
+  rw [e, List.getLast?_concat]
+
+/- `dmrg_exit_state`, gauge part — proved only on instances (`example`s below), full statement:
+   theorem dmrg_exit_gauge (N ≥ 1) (pre canon) (ms) (m) :
+     let st := (exec N pre (init N canon) (dmrgRun N canon (ms ++ [m]))).1
+     (∀ n, 1 ≤ n → n < N → st.g n = .right) ∧ (m = .one → st.g 0 = .right)
+   (after a '2site' sweep site 0 holds U·S: right-canonical iff the kept Schmidt values have norm one — this is where the
+   known defect c09:unnormalised-2site-truncation lives).
+   `sector_preserved`, `energy_nonincreasing`, `energy_ge_lambda_min`: not proved (validated by the oracles). -/
+
+/-! ### non-vacuity: the checker does reject wrong schedules, and the hypotheses are satisfiable -/
+
+/-- a site written after the right environment was built: the next `Heff1` reads a stale `F[(1,0)]` -/
+example : (exec 3 false (init 3 true) (setupFirst 3 ++ [.w1 1, .h1 0])).2 = false := by decide
+
+/-- `update_env_(n)` instead of `update_env_(n + dn)` in the backward 2-site sweep: `KeyError` (missing key) -/
+example : (exec 3 false (init 3 true) (setupFirst 3 ++ [.h2 1, .w2 1, .abs .first, .clr [1, 2], .upd 1 .first])).2 = false := by
+  decide
+
+/-- forgetting to drop the derived key `(n, n+1, n+1)` in the precompute `clear_site_` is caught: with the real
+`clear_site_` the second sweep is fine (theorem above); here the derived key written in sweep 1 is read stale -/
+example : (exec 3 true (init 3 true) (setupFirst 3 ++ [.h2 1, .w2 1, .abs .last, .upd 1 .last, .h2 1])).2 = false := by
+  decide
+
+set_option maxRecDepth 20000 in
+example : (exec 3 true (init 3 false) (dmrgRun 3 false [.two, .one])).2 = true := by decide
+
+set_option maxRecDepth 20000 in
+example : let st := (exec 3 true (init 3 false) (dmrgRun 3 false [.two, .one])).1
+    (st.g 0, st.g 1, st.g 2) = (.right, .right, .right) := by decide
+
+set_option maxRecDepth 20000 in
+example : let st := (exec 3 false (init 3 true) (dmrgRun 3 true [.one, .two])).1
+    (st.g 0, st.g 1, st.g 2) = (.none, .right, .right) := by decide
+
 end YModel.Sched
